@@ -216,6 +216,7 @@ type caseCtx struct {
 	exp    Sig
 	expS   string
 	canonT string
+	canonO string // observed signature of the canonical rendering
 }
 
 func run(c *runner.Ctx) {
@@ -270,6 +271,12 @@ func checkDesc(c *runner.Ctx, axis string, n int, d Desc) {
 		seen[key] = true
 		cc.rendering(st, cfg)
 	})
+	if cc.canonO != cc.expS {
+		// the description itself does not round-trip (reported above): its
+		// near-misses would only repeat that
+		c.Count("descriptions_without_near_misses", 1)
+		return
+	}
 	for _, st := range nearMissBases(d, c.Thorough()) {
 		if c.Expired() {
 			return
@@ -292,6 +299,8 @@ func (cc *caseCtx) rendering(st Style, cfg Config) {
 	c.Outcome(os)
 	if cfg.Main != cc.canonT {
 		c.Distinct(cfgKey(cfg))
+	} else {
+		cc.canonO = os
 	}
 	if c.WantSample() && len(st.Cont) > 0 && st.Place != 0 {
 		c.Sample(map[string]any{"description": cc.d, "style": st, "config": cfg, "signature": os})
@@ -405,43 +414,34 @@ var trivialTargets = []Target{argsKeyA}
 var trivialActs = acts("id=1", "phase=2", "pass", "log")
 
 // classifyDesc names the root cause of a description whose canonical
-// rendering does not compile to it: the component (targets, operator,
-// actions) whose replacement by a trivial one makes the mismatch disappear,
+// rendering does not compile to it: the first component (targets, operator,
+// actions) that still fails when the other two are replaced by trivial ones,
 // then the narrowest feature of that component that fails on its own.
 func classifyDesc(d Desc, e, o Sig) string {
 	how := diffKind(e, o)
-	var comps []string
 	if !d.SecAction {
-		t := d
-		t.Targets = trivialTargets
-		if ok, _, _ := matches(t, Style{}); ok {
-			comps = append(comps, "targets")
+		for _, show := range []Desc{{Not: true, Op: "streq", Arg: "zz"}, {Op: "streq", Arg: "v1"}} {
+			t := Desc{Targets: d.Targets, Not: show.Not, Op: show.Op, Arg: show.Arg, Actions: trivialActs}
+			if ok, _, _ := matches(t, Style{}); !ok {
+				return "roundtrip:target:" + targetCulprit(t)
+			}
 		}
-		t = d
-		t.Not, t.Op, t.Arg = false, "streq", "v1"
-		if ok, _, _ := matches(t, Style{}); ok {
-			comps = append(comps, "operator")
+		t := Desc{Targets: trivialTargets, Not: d.Not, Op: d.Op, Arg: d.Arg, Actions: trivialActs}
+		if ok, _, _ := matches(t, Style{}); !ok {
+			return "roundtrip:operator-argument:" + argCulprit(t)
 		}
 	}
-	t := d
-	t.Actions = trivialActs
-	if ok, _, _ := matches(t, Style{}); ok {
-		comps = append(comps, "actions")
+	t := Desc{SecAction: d.SecAction, Targets: trivialTargets, Op: "streq", Arg: "v1", Actions: d.Actions}
+	if d.SecAction {
+		t.Targets, t.Op, t.Arg = nil, "", ""
 	}
-	if len(comps) != 1 {
-		return "unclassified:" + how + ":" + d.canon()
+	if ok, _, _ := matches(t, Style{}); !ok {
+		return "roundtrip:" + actionCulprit(t)
 	}
-	switch comps[0] {
-	case "targets":
-		return "roundtrip:target:" + targetCulprit(d) + ":" + how
-	case "operator":
-		return "roundtrip:operator-argument:" + argCulprit(d) + ":" + how
-	}
-	return "roundtrip:" + actionCulprit(d)
+	return "unclassified:" + how + ":" + d.canon()
 }
 
 func targetCulprit(d Desc) string {
-	var alone []string
 	var all []string
 	for _, t := range d.Targets {
 		all = append(all, t.label())
@@ -450,13 +450,17 @@ func targetCulprit(d Desc) string {
 		if t.Neg {
 			x.Targets = []Target{{Coll: t.Coll}, t}
 		}
-		if ok, _, _ := matches(x, Style{}); !ok {
-			alone = append(alone, t.label())
+		if ok, _, _ := matches(x, Style{}); ok {
+			continue
 		}
-	}
-	if len(alone) > 0 {
-		sort.Strings(alone)
-		return alone[0]
+		// does the key spelling fail already without the ! or & prefix?
+		bare := t
+		bare.Neg, bare.Count = false, false
+		x.Targets = []Target{bare}
+		if ok, _, _ := matches(x, Style{}); !ok {
+			return bare.label()
+		}
+		return t.label()
 	}
 	return "combination:" + strings.Join(all, "+")
 }
@@ -641,6 +645,20 @@ func editClass(exp, obs string) string {
 // ---------------------------------------------------------------------------
 // Near-misses.
 
+// unspecified: reference-reader refusals about which the documentation of the
+// parser says nothing either way (quotes are balanced and the parser keeps the
+// text literally); not asserted.
+var unspecified = map[string]bool{
+	"text-after-closing-quote-of-action-value": true,
+	"quote-inside-unquoted-action-value":       true,
+	"quote-inside-plain-key":                   true,
+	"model: missing-id":                        true,
+}
+
+// sameOn: o, observed on probes, equals the expected signature e (which was
+// computed on the same probes).
+func sameOn(o Sig, probes []Probe, e Sig) bool { return o.String() == e.String() }
+
 func (cc *caseCtx) nearMisses(st Style, seen map[string]bool) {
 	text, delims := renderRule(cc.d, st)
 	try := func(name, kind string, cfg Config) {
@@ -692,6 +710,9 @@ func (cc *caseCtx) nearMiss(name, kind string, cfg Config) {
 	} else {
 		probes = battery(rules)
 		exp = expect(rules, probes)
+		if exp.Err {
+			probes = cc.probes
+		}
 	}
 	o := observe(cfg, probes)
 	os := o.String()
@@ -706,6 +727,14 @@ func (cc *caseCtx) nearMiss(name, kind string, cfg Config) {
 	case !exp.Err && o.Err:
 		// a readable text that the parser refuses: not "silently altered"
 		c.Count("near_misses_readable_but_rejected", 1)
+		return
+	case exp.Err && sameOn(o, cc.probes, cc.exp):
+		// not a spelling of anything, but it compiles to exactly the rule it
+		// was derived from: nothing is altered
+		c.Count("near_misses_tolerated_same_meaning", 1)
+		return
+	case exp.Err && (rerr != nil && unspecified[kindOf(rerr)] || rerr == nil && unspecified[exp.ErrMsg]):
+		c.Count("skipped_unspecified", 1)
 		return
 	case exp.Err:
 		why := "model: the description it spells cannot be compiled"
